@@ -1311,8 +1311,10 @@ def run_case(desc, ctx):
                 except P.GeneratorBug:
                     continue  # the defect changes the course of the case in a way the model cannot follow
                 if not v2:
-                    for v in viol:
-                        v['detail']['observation_equals_emulation_of'] = key
+                    # everything observed is exactly what this defect predicts: one witness per case is kept
+                    viol[0]['detail']['observation_equals_emulation_of'] = key
+                    viol[0]['detail']['consequences_in_same_case'] = [v['what'] for v in viol[1:]]
+                    del viol[1:]
                     break
         for v in viol:
             v['detail'].update(base)
